@@ -8,6 +8,8 @@ import (
 	"crypto/sha256"
 	"encoding/hex"
 	"math/big"
+	"reflect"
+	"sync/atomic"
 
 	"github.com/consensys/gnark-crypto/ecc"
 	curve "github.com/consensys/gnark-crypto/ecc/bls24-317"
@@ -15,7 +17,7 @@ import (
 	"github.com/consensys/gnark-crypto/ecc/bls24-317/fr"
 	"github.com/consensys/gnark-crypto/ecc/bls24-317/fr/fft"
 	"github.com/consensys/gnark-crypto/ecc/bls24-317/fr/iop"
-	_ "github.com/consensys/gnark-crypto/ecc/bls24-317/fr/mimc"
+	"github.com/consensys/gnark-crypto/ecc/bls24-317/fr/mimc"
 	"github.com/consensys/gnark-crypto/ecc/bls24-317/fr/polynomial"
 	"github.com/consensys/gnark-crypto/ecc/bls24-317/fr/poseidon2"
 	"github.com/consensys/gnark-crypto/ecc/bls24-317/kzg"
@@ -42,10 +44,13 @@ func init() {
 
 	// ---- pairings with precomputed lines -------------------------------------------------------------------------
 	mkPair := func(which int) c18Maker {
-		return func(r *rng) *c18Sess {
-			n := 1 + r.intn(3)
+		return func(r *rng, shape int) *c18Sess {
+			n := c18Pick(shape, 1, 2, 4, func() int { return 1 + r.intn(3) }) // 1 pair = the minimal product
 			P, Q := rG1(r, n), rG2(r, n)
-			if which == 2 || (which == 3 && r.coin()) {
+			if shape == 1 && which != 2 { // a pair with the point at infinity on one side
+				P[r.intn(n)] = curve.G1Affine{}
+			}
+			if which == 2 || (which == 3 && shape > 2 && r.coin()) {
 				// e(aG1, bG2) · e(-abG1, G2) = 1
 				n = 2
 				a, b := rfr(r), rfr(r)
@@ -84,19 +89,26 @@ func init() {
 
 	// ---- KZG with a shared SRS ------------------------------------------------------------------------------------
 	mkKzg := func(which int) c18Maker {
-		return func(r *rng) *c18Sess {
-			size := 8 << r.intn(3)
+		return func(r *rng, shape int) *c18Sess {
+			// shapes: 0 = smallest SRS (2), ONE polynomial of degree 1; 1 = ONE constant polynomial; 2 = ONE full-size
+			// polynomial; 3 = two polynomials; otherwise 1..4 polynomials of random sizes
+			size := c18Pick(shape, 2, 4, 16, func() int { return 8 << r.intn(3) })
 			srs, err := kzg.NewSRS(uint64(size), r.bigBits(200))
 			if err != nil {
 				panic(err)
 			}
-			nb := 2 + r.intn(3)
+			nb := 1
+			if shape == 3 {
+				nb = 2
+			} else if shape > 3 {
+				nb = 1 + r.intn(4)
+			}
 			polys := make([][]fr.Element, nb)
 			digests := make([]kzg.Digest, nb)
 			proofs := make([]kzg.OpeningProof, nb)
 			points := rfrs(r, nb)
 			for i := range polys {
-				polys[i] = rfrs(r, size-r.intn(3))
+				polys[i] = rfrs(r, c18Pick(shape, 2, 1, size, func() int { return size - r.intn(3) }))
 				digests[i], _ = kzg.Commit(polys[i], srs.Pk)
 				proofs[i], _ = kzg.Open(polys[i], points[i], srs.Pk)
 			}
@@ -115,9 +127,22 @@ func init() {
 			case 2:
 				s.args = []c18Arg{{"p", &polys[0]}, {"point", &points[0]}, {"srs", srs}}
 				s.call = func() string { pr, err := kzg.Open(polys[0], points[0], srs.Pk); return deepHash(&pr) + c18Err(err) }
-			default:
+			case 3:
 				s.args = []c18Arg{{"p", &polys[0]}, {"srs", srs}}
 				s.call = func() string { d, err := kzg.Commit(polys[0], srs.Pk, nbTasks); return deepHash(&d) + c18Err(err) }
+			default:
+				// the batch entry points (one point): polynomials is a slice of slices, all of it is snapshotted
+				data := [][]byte{frBytes(r)}
+				if r.coin() {
+					data = nil
+				}
+				s.args = []c18Arg{{"polynomials", &polys}, {"digests", &digests}, {"point", &points[0]}, {"srs", srs}, {"dataTranscript", &data}}
+				s.call = func() string {
+					pr, err := kzg.BatchOpenSinglePoint(polys, digests, points[0], sha256.New(), srs.Pk, data...)
+					err1 := kzg.BatchVerifySinglePoint(digests, &pr, points[0], sha256.New(), srs.Vk, data...)
+					fpr, fd, err2 := kzg.FoldProof(digests, &pr, points[0], sha256.New(), data...)
+					return deepHash(&pr) + c18Err(err) + c18Err(err1) + deepHash(&fpr) + deepHash(&fd) + c18Err(err2)
+				}
 			}
 			return s
 		}
@@ -126,13 +151,16 @@ func init() {
 	reg("kzgbatchverify", mkKzg(1))
 	reg("kzgopen", mkKzg(2))
 	reg("kzgcommit", mkKzg(3))
+	reg("kzgbatchopen", mkKzg(4))
 
 	// ---- multi-exponentiation on shared point / scalar slices -----------------------------------------------------
-	reg("multiexp", func(r *rng) *c18Sess {
-		n := 1 + r.intn(40)
-		if r.intn(3) == 0 {
-			n = 100 + r.intn(300)
-		}
+	reg("multiexp", func(r *rng, shape int) *c18Sess {
+		n := c18Pick(shape, 1, 2, 513, func() int {
+			if r.intn(3) == 0 {
+				return 100 + r.intn(300)
+			}
+			return 1 + r.intn(40)
+		})
 		points, scalars := rG1(r, n), rfrs(r, n)
 		n2 := n
 		if n2 > 24 {
@@ -156,10 +184,17 @@ func init() {
 	})
 
 	// ---- FFT / FFTInverse on a shared Domain ----------------------------------------------------------------------
-	reg("fft", func(r *rng) *c18Sess {
-		n := 4 << r.intn(9)
+	reg("fft", func(r *rng, shape int) *c18Sess {
+		// shapes: 0, 1 = domains of size 1 and 2; 2, 3, 4 = ONE large domain (2^10..2^12; precomputed / shifted / without
+		// precomputation) for many concurrent callers; otherwise sizes 4..1024, any kind
+		n := c18Pick(shape, 1, 2, 1024, func() int { return 4 << r.intn(9) })
+		kind := r.intn(3)
+		if shape >= 2 && shape <= 4 {
+			n = 1024 << (r.intn(5) / 2 * r.intn(2)) // 2^10 mostly, 2^11, 2^12
+			kind = []int{0, 2, 1}[shape-2]
+		}
 		var d *fft.Domain
-		switch r.intn(3) {
+		switch kind {
 		case 0:
 			d = fft.NewDomain(uint64(n))
 		case 1:
@@ -168,20 +203,51 @@ func init() {
 			d = fft.NewDomain(uint64(n), fft.WithShift(rfr(r)))
 		}
 		a := rfrs(r, n)
-		opts := []fft.Option{fft.WithNbTasks(1 + r.intn(8))}
-		if r.coin() {
-			opts = append(opts, fft.OnCoset())
+		nbTasks := 1 + r.intn(8)
+		if shape >= 2 && shape <= 4 && r.coin() {
+			nbTasks = 1
+		}
+		// every transform x decimation x coset combination on the SAME domain; concurrent callers start at different
+		// combinations so that different code paths of the shared domain overlap in time
+		one := func(j int) string {
+			b := c18Clone(a)
+			dec := fft.DIF
+			if j&1 == 1 {
+				dec = fft.DIT
+			}
+			opts := []fft.Option{fft.WithNbTasks(nbTasks)}
+			if j&2 != 0 {
+				opts = append(opts, fft.OnCoset())
+			}
+			if j&4 == 0 {
+				d.FFT(b, dec, opts...)
+			} else {
+				d.FFTInverse(b, dec, opts...)
+			}
+			return deepHash(&b)
+		}
+		var turn atomic.Uint64
+		run := func(rot int) string {
+			var res [8]string
+			for j := 0; j < 8; j++ {
+				k := (j*5 + rot) % 8
+				res[k] = one(k)
+			}
+			out := ""
+			for _, x := range res {
+				out += x
+			}
+			// round trips and the exported tables of the domain
+			b := c18Clone(a)
+			d.FFT(b, fft.DIF, fft.OnCoset(), fft.WithNbTasks(nbTasks))
+			d.FFTInverse(b, fft.DIT, fft.OnCoset(), fft.WithNbTasks(nbTasks))
+			ct, err := d.CosetTable()
+			cti, err1 := d.CosetTableInv()
+			return out + boolStr(deepHash(&b) == deepHash(&a)) + deepHash(&ct) + c18Err(err) + deepHash(&cti) + c18Err(err1)
 		}
 		s := &c18Sess{args: []c18Arg{{"domain", d}, {"a", &a}}}
-		s.call = func() string {
-			b := c18Clone(a)
-			d.FFT(b, fft.DIF, opts...)
-			c := c18Clone(b)
-			d.FFTInverse(c, fft.DIT, opts...)
-			e := c18Clone(a)
-			d.FFTInverse(e, fft.DIF, opts...)
-			return deepHash(&b) + deepHash(&c) + deepHash(&e)
-		}
+		s.call = func() string { return run(0) }
+		s.concCall = func() string { return run(int(turn.Add(1) * 3)) }
 		return s
 	})
 
@@ -191,11 +257,11 @@ func init() {
 	reg("mdhasher", c18MDMaker(func() ghash.Compressor { return poseidon2.NewPermutation(2, 6, 50) }, fr.Bytes, frBytes))
 
 	// ---- batch group operations -----------------------------------------------------------------------------------
-	reg("batchscalarmul", func(r *rng) *c18Sess {
-		n := 1 + r.intn(120)
+	reg("batchscalarmul", func(r *rng, shape int) *c18Sess {
+		n := c18Pick(shape, 1, 2, 300, func() int { return 1 + r.intn(120) })
 		base, base2 := rG1(r, 1)[0], rG2(r, 1)[0]
 		scalars := rfrs(r, n)
-		if r.intn(3) == 0 {
+		if r.intn(3) == 0 || shape == 1 {
 			scalars[r.intn(n)].SetZero()
 		}
 		n2 := n
@@ -210,8 +276,8 @@ func init() {
 		}
 		return s
 	})
-	reg("batchjactoaff", func(r *rng) *c18Sess {
-		n := 1 + r.intn(200)
+	reg("batchjactoaff", func(r *rng, shape int) *c18Sess {
+		n := c18Pick(shape, 1, 2, 1025, func() int { return 1 + r.intn(200) })
 		aff := rG1(r, n)
 		points := make([]curve.G1Jac, n)
 		for i := range points {
@@ -227,7 +293,7 @@ func init() {
 			points[i].Y.Mul(&points[i].Y, &z3)
 			points[i].Z.Mul(&points[i].Z, &z)
 		}
-		if r.intn(3) == 0 {
+		if r.intn(3) == 0 || shape == 1 {
 			points[r.intn(n)].Z.SetZero() // infinity
 		}
 		s := &c18Sess{args: []c18Arg{{"points", &points}}}
@@ -236,8 +302,8 @@ func init() {
 	})
 
 	// ---- iop.Polynomial conversions on clones of a shared polynomial ----------------------------------------------
-	reg("iop", func(r *rng) *c18Sess {
-		n := 4 << r.intn(6)
+	reg("iop", func(r *rng, shape int) *c18Sess {
+		n := c18Pick(shape, 1, 2, 512, func() int { return 4 << r.intn(6) })
 		d := fft.NewDomain(uint64(n))
 		coeffs := rfrs(r, n)
 		P := iop.NewPolynomial(&coeffs, iop.Form{Basis: iop.Canonical, Layout: iop.Regular})
@@ -251,7 +317,9 @@ func init() {
 			q.ToCanonical(d, nbTasks).ToRegular()
 			h2 := deepHash(q)
 			q2 := P.Clone()
-			q2.ToLagrangeCoset(d)
+			if n > 1 { // (on a domain of size 1 ToLagrangeCoset reads cosetTable[1]: index out of range, reported under C20)
+				q2.ToLagrangeCoset(d)
+			}
 			h3 := deepHash(q2)
 			q3 := P.Clone().ToBitReverse()
 			v, v3 := P.Evaluate(x), q3.Evaluate(x)
@@ -261,8 +329,8 @@ func init() {
 	})
 
 	// ---- fr.Vector operations with a fresh destination ------------------------------------------------------------
-	reg("vector", func(r *rng) *c18Sess {
-		n := 1 + r.intn(70)
+	reg("vector", func(r *rng, shape int) *c18Sess {
+		n := c18Pick(shape, 1, 0, 2, func() int { return 1 + r.intn(70) })
 		a, b, c := fr.Vector(rfrs(r, n)), fr.Vector(rfrs(r, n)), rfr(r)
 		s := &c18Sess{args: []c18Arg{{"a", &a}, {"b", &b}, {"c", &c}}}
 		s.call = func() string {
@@ -283,9 +351,9 @@ func init() {
 	})
 
 	// ---- Encoder / Decoder ----------------------------------------------------------------------------------------
-	reg("codec", func(r *rng) *c18Sess {
-		n := 1 + r.intn(40)
-		ps, qs, es := rG1(r, n), rG2(r, 1+r.intn(4)), rfrs(r, n)
+	reg("codec", func(r *rng, shape int) *c18Sess {
+		n := c18Pick(shape, 1, 2, 100, func() int { return 1 + r.intn(40) })
+		ps, qs, es := rG1(r, n), rG2(r, c18Pick(shape, 1, 1, 2, func() int { return 1 + r.intn(4) })), rfrs(r, n)
 		raw := r.coin()
 		encode := func() []byte {
 			var buf bytes.Buffer
@@ -324,7 +392,7 @@ func init() {
 	})
 
 	// ---- lazily initialised twisted Edwards parameters --------------------------------------------------------------
-	reg("edwards", func(r *rng) *c18Sess {
+	reg("edwards", func(r *rng, shape int) *c18Sess {
 		s := &c18Sess{concFirst: true}
 		s.call = func() string {
 			p := twistededwards.GetEdwardsCurve()
@@ -346,8 +414,8 @@ func init() {
 	})
 
 	// ---- polynomial.Pool shared by callers ------------------------------------------------------------------------
-	reg("polypool", func(r *rng) *c18Sess {
-		nv := 2 + r.intn(5)
+	reg("polypool", func(r *rng, shape int) *c18Sess {
+		nv := c18Pick(shape, 1, 2, 8, func() int { return 2 + r.intn(5) })
 		m := polynomial.MultiLin(rfrs(r, 1<<nv))
 		coords := rfrs(r, nv)
 		pool := polynomial.NewPool(1<<nv, 1<<(nv+2))
@@ -374,4 +442,126 @@ func init() {
 		}
 		return s
 	})
+}
+
+func c18FreshTable_bls24_317() map[string]c18FreshMaker {
+	// ---- first use of a lazily initialised global, concurrently, in a fresh process (`C18 fresh …`) ----------------
+	// The makers must NOT touch the global they are about (the child process calls them before the barrier), and this
+	// function must not call the library at all: it runs during the initialisation of the package-level variables of
+	// the harness (c18FreshEarly), before every init() function.
+	t := map[string]c18FreshMaker{}
+	regFresh := func(global string, mk c18FreshMaker) { t[global+"/bls24-317"] = mk }
+	rfr := func(r *rng) (e fr.Element) { e.SetBigInt(r.bigBits(fr.Bits + 64)); return }
+	rfrs := func(r *rng, n int) []fr.Element {
+		s := make([]fr.Element, n)
+		for i := range s {
+			s[i] = rfr(r)
+		}
+		return s
+	}
+	frBytes := func(r *rng) []byte { e := rfr(r); b := e.Bytes(); return b[:] }
+	regFresh("mimc", func(r *rng) []func() string {
+		var msg []byte
+		for i := 1 + r.intn(3); i > 0; i-- {
+			msg = append(msg, frBytes(r)...)
+		}
+		return []func() string{
+			func() string { h := ghash.MIMC_BLS24_317.New(); h.Write(msg); return hex.EncodeToString(h.Sum(nil)) },
+			func() string { d, err := mimc.Sum(msg); return hex.EncodeToString(d) + c18Err(err) },
+			func() string { h := mimc.NewMiMC(); h.Write(msg[:fr.Bytes]); return hex.EncodeToString(h.Sum(nil)) },
+			func() string { c := mimc.GetConstants(); return deepHash(&c) },
+		}
+	})
+	regFresh("poseidon2", func(r *rng) []func() string {
+		var msg []byte
+		for i := 1 + r.intn(3); i > 0; i-- {
+			msg = append(msg, frBytes(r)...)
+		}
+		return []func() string{
+			func() string {
+				h := ghash.POSEIDON2_BLS24_317.New()
+				h.Write(msg)
+				return hex.EncodeToString(h.Sum(nil))
+			},
+			func() string { return deepHash(poseidon2.GetDefaultParameters()) },
+			func() string {
+				h := poseidon2.NewMerkleDamgardHasher()
+				h.Write(msg)
+				return hex.EncodeToString(h.Sum(nil))
+			},
+		}
+	})
+	regFresh("edwards", func(r *rng) []func() string {
+		// arbitrary coordinates (a curve point cannot be made without the parameters): the formulas are total
+		p1 := twistededwards.PointAffine{X: rfr(r), Y: rfr(r)}
+		p2 := twistededwards.PointAffine{X: rfr(r), Y: rfr(r)}
+		k := r.bigBits(90)
+		yb := frBytes(r)
+		return []func() string{
+			func() string { p := twistededwards.GetEdwardsCurve(); return deepHash(&p) },
+			func() string {
+				var q twistededwards.PointAffine
+				q.Add(&p1, &p2)
+				return deepHash(&q) + boolStr(p1.IsOnCurve())
+			},
+			func() string {
+				var q twistededwards.PointAffine
+				q.ScalarMultiplication(&p1, k)
+				return deepHash(&q)
+			},
+			func() string {
+				var a, b twistededwards.PointExtended
+				a.FromAffine(&p1)
+				b.FromAffine(&p2)
+				a.Add(&a, &b)
+				b.ScalarMultiplication(&b, k)
+				return deepHash(&a) + deepHash(&b)
+			},
+			func() string {
+				var a, b twistededwards.PointProj
+				a.FromAffine(&p1)
+				b.FromAffine(&p2)
+				a.Add(&a, &b)
+				b.MixedAdd(&b, &p1)
+				return deepHash(&a) + deepHash(&b)
+			},
+			func() string {
+				var q twistededwards.PointAffine
+				_, err := q.SetBytes(yb)
+				return deepHash(&q) + c18Err(err) + boolStr(q.IsOnCurve())
+			},
+		}
+	})
+	regFresh("lagrange", func(r *rng) []func() string {
+		mk := func(n int) func() string {
+			v := rfrs(r, n)
+			return func() string {
+				p := polynomial.InterpolateOnRange(v)
+				h := deepHash(&p)
+				for i := range p { // the caller owns the result
+					p[i].SetUint64(0xdead)
+				}
+				return h
+			}
+		}
+		return []func() string{mk(5), mk(5), mk(2), mk(9), mk(1), mk(5)}
+	})
+	regFresh("bigintpool", func(r *rng) []func() string {
+		x := rfr(r)
+		var gt curve.GT
+		c18FillFp(reflect.ValueOf(&gt).Elem(), reflect.TypeOf(fp.Element{}), func(v reflect.Value) {
+			var e fp.Element
+			e.SetBigInt(r.bigBits(fp.Bits + 64))
+			v.Set(reflect.ValueOf(e))
+		})
+		k := r.bigBits(70)
+		kneg := new(big.Int).Neg(k)
+		return []func() string{
+			func() string { var z curve.GT; z.Exp(gt, kneg); return deepHash(&z) },
+			func() string { e := x; return e.Text(10) + e.String() },
+			func() string { var z fr.Element; z.Exp(x, kneg); return deepHash(&z) },
+			func() string { var z curve.GT; z.Exp(gt, k); return deepHash(&z) },
+		}
+	})
+	return t
 }
